@@ -48,7 +48,7 @@ CHECKS = {
                  {"name": "VerifC03Committed", "quick": {"msgs": 3}, "thorough": {"msgs": 4},
                   "covers": ["done", "start-beyond-hw", "hw-advanced"], "targets": ["committedReader).Read", "committedReader).readLoop", "getHWPos"]},
                  {"name": "VerifC03Wakeup", "quick": {"msgs": 2}, "thorough": {"msgs": 3},
-                  "covers": ["done"], "targets": ["committedReader).waitForHW", "commitLog).notifyHWChange"]},
+                  "covers": ["done", "parked-after-reading"], "targets": ["committedReader).waitForHW", "commitLog).notifyHWChange"]},
                  {"name": "VerifC03Schedules", "quick": {"appends": 2, "rolls": 1, "hwsets": 2, "preemptions": 1}, "thorough": {"appends": 2, "rolls": 1, "hwsets": 2, "preemptions": 2},
                   "replay": "interpreted", "max-paths": 1000000,
                   "covers": ["done"], "targets": ["commitLog).rollActiveSegment", "commitLog).Append", "committedReader).Read"]},
